@@ -232,6 +232,23 @@ V = [
     ("C07", "F", "w7/R1 + fast path taken when the multipliers are NOT all zero", ("patch", "c07_w7_R1_lu.diff", LU),
      "multipliers_zero = not np.any(quaternion.as_float_array(col_vector))", "multipliers_zero = bool(np.any(quaternion.as_float_array(col_vector)))",
      "rule=C07."),
+    # ------------------------------------------------------------------ fourth batch: magnitude of the ifft2 result, divisions by a spectrum that may vanish
+    ("C17", "F", "blind w4/A: blur returns np.abs(ifft2(.))", ("patch", "mut_c17_w4_A.diff", QS), None, None, "apply_blur_fft: channel 0"),
+    ("C17", "F", "blind w4/B: gain * (B_hat / H_hat)", ("patch", "mut_c17_w4_B.diff", QS), None, None, "division by a spectrum that may vanish"),
+    ("C17", "F", "blur returns sqrt(re^2 + im^2)", QS, "B[..., c] = np.real(ifft2(fft2(Q[..., c]) * H_hat))",
+     "z = ifft2(fft2(Q[..., c]) * H_hat)\n        B[..., c] = np.sqrt(np.real(z) ** 2 + np.imag(z) ** 2)", "apply_blur_fft: channel 0"),
+    ("C17", "F", "restore returns np.absolute(ifft2(.))", QS, "Xq[..., c] = np.real(ifft2(X_hat))", "Xq[..., c] = np.absolute(ifft2(X_hat))",
+     "qslst_restore_fft: channel 0"),
+    ("C17", "F", "restore divides by |H|^2 and multiplies it back", QS, "X_hat = H_conj * B_hat / denom", "X_hat = (H_conj * B_hat / np.abs(H_hat) ** 2) * (np.abs(H_hat) ** 2 / denom)",
+     "division by a spectrum that may vanish"),
+    ("C17", "F", "restore divides by conj(H)", QS, "X_hat = H_conj * B_hat / denom", "X_hat = (H_conj * H_conj) * B_hat / denom / H_conj", "division by a spectrum that may vanish"),
+    ("C17", "F", "restore divides by |H|", QS, "X_hat = H_conj * B_hat / denom", "X_hat = (H_conj / np.abs(H_hat)) * B_hat * np.abs(H_hat) / denom", "division by a spectrum that may vanish"),
+    ("C17", "F", "lam dropped from the denominator", QS, "denom = (np.abs(H_hat) ** 2) + lam", "denom = np.abs(H_hat) ** 2", "division by a spectrum that may vanish"),
+    ("C17", "S", "restore takes ifft2(.).real", QS, "Xq[..., c] = np.real(ifft2(X_hat))", "Xq[..., c] = ifft2(X_hat).real", None),
+    ("C17", "S", "denominator spelled (H * conj(H)).real + lam", QS, "denom = (np.abs(H_hat) ** 2) + lam", "denom = (H_hat * np.conj(H_hat)).real + lam", None),
+    ("C17", "S", "denominator spelled np.real(conj(H) * H) + lam, reciprocal precomputed", QS,
+     "denom = (np.abs(H_hat) ** 2) + lam" , "denom = 1.0 / (np.real(np.conj(H_hat) * H_hat) + lam)\n    denom = 1.0 / denom", None),
+    ("C17", "S", "filter as conj(H) * (1 / denom) * B", QS, "X_hat = H_conj * B_hat / denom", "X_hat = H_conj * (1.0 / denom) * B_hat", None),
 ]
 
 
